@@ -230,6 +230,8 @@ def small_programs(quick):
     out.append(("mask2_desc", b.build(), 0, 64, 256))
     b = J.Builder(N=3 if quick else 4); J.t_indep(b, "T", ["step2"], flowkind="new"); J.t_indep(b, "U", ["desc"], flowkind="rwread")
     out.append(("startup_chunk1", b.build(), 0, 1, 1))
+    b = J.Builder(N=2); J.t_chain(b, "CH", "asc", orient="tm", src="new"); J.t_route(b, "asc", "mt", "data")
+    out.append(("chain_new_route_writeback", b.build(), 0, 64, 256))
     if not quick:
         b = J.Builder(N=6); J.t_indep(b, "T", ["asc"])
         out.append(("startup_chunk2", b.build(), 0, 2, 2))
